@@ -67,3 +67,8 @@ N("c18-n-wait-cond-order", "C18", A, RC, "                not self._protocol.rea
   "                not self._protocol.is_at_eof\n                and not self._protocol.read_event.is_set()\n                and not self._transport.is_closing()\n")
 
 M("c18-anext-swallows-errors", "C18", "abc/_streams.py", "ByteReceiveStream.__anext__", "        except EndOfStream:", "        except (EndOfStream, OSError, Exception):", ["R18-d"])
+
+# from seeded change C18/a
+M("c18-clear-before-split", "C18", A, RC,
+  "            if len(chunk) > max_bytes:\n                # Split the oversized chunk\n                chunk, leftover = chunk[:max_bytes], chunk[max_bytes:]\n                self._protocol.read_queue.appendleft(leftover)\n\n            # If the read queue is empty, clear the flag so that the next call will\n            # block until data is available\n            if not self._protocol.read_queue:\n                self._protocol.read_event.clear()\n",
+  "            if not self._protocol.read_queue:\n                self._protocol.read_event.clear()\n\n            if len(chunk) > max_bytes:\n                # Split the oversized chunk\n                chunk, leftover = chunk[:max_bytes], chunk[max_bytes:]\n                self._protocol.read_queue.appendleft(leftover)\n", ["R18-c"])
